@@ -305,11 +305,25 @@ def mk_mul(name, D, L, sgn, opn="mul", shape=None, mode="int"):
                 vs = [rng.choice(S) if rng.random() < 0.7 else rng.randint(0, top) for _ in range(n)]
                 seeds.append(mk(us, vs))
             return seeds
-    return Kernel(name, args, "i32", body, mode=mode, W=None if mode == "int" else (lw * (shape[0] + 1) + 8), pre=pre, claims=claims,
+    k_ = Kernel(name, args, "i32", body, mode=mode, W=None if mode == "int" else (lw * (shape[0] + 1) + 8), pre=pre, claims=claims,
                   unwind=6 * n + 24, max_paths=40000, timeout=240 if shape is None else 8,
                   guided_seeds=gs,
                   desc="wide_integer<%d,%s%s> %s (%d limbs)%s" % (D, "s" if sgn else "u", L[1:], o, n, (" operands with %d/%d significant limbs" % shape) if shape else ""),
                   tags={"op": opn, "D": D, "L": L, "sgn": sgn, "limbs": n})
+    if shape is not None and lw == 8:
+        def rnd(rng):
+            dct = {}
+            for i in range(shape[0]):
+                dct["a_%d" % i] = rng.randint(0, 255)
+            for i in range(shape[1]):
+                dct["b_%d" % i] = rng.randint(0, 255)
+            if dct["a_%d" % (shape[0] - 1)] == 0:
+                dct["a_%d" % (shape[0] - 1)] = 1
+            if dct["b_%d" % (shape[1] - 1)] == 0:
+                dct["b_%d" % (shape[1] - 1)] = 1
+            return dct
+        k_.guided_random = (rnd, 4000)
+    return k_
 
 
 def kernels(opts):
